@@ -19,6 +19,7 @@ import Goflow.Gen.C06
 import Goflow.Gen.C10
 import Goflow.Gen.Malformed
 import Goflow.Gen.C13
+import Goflow.Gen.C14
 /-!
   goflow-model: the executable side of the model.
     goflow-model run            ops on stdin → canonical blocks on stdout
@@ -74,6 +75,27 @@ def execCall (st : DState) (args : List String) : DState × List String :=
       match Producer.parsePacket (st.cfg cid) FlowMsg.empty d with
       | .ok m => (st, ["res ok", m.dump])
       | .error e => (st, [resLine e])
+  | ["getbytes", hex, off, len, sh] =>
+    match parseHex hex, off.toInt?, len.toInt? with
+    | some d, some o, some l =>
+      match Producer.getBytes d o l (sh == "1") with
+      | .ok b => (st, ["res ok", "out " ++ hexOf b])
+      | .error e => (st, [resLine e])
+    | _, _, _ => (st, ["bad-op"])
+  | ["getbytesall", n, off, len, sh] =>
+    -- digest (FNV-1a, 64 bit) over GetBytes of every buffer of n bytes, in counting order
+    match off.toInt?, len.toInt? with
+    | some o, some l =>
+      let nb := n.toNat!
+      let total := 256 ^ nb
+      let h := (List.range total).foldl (fun h i =>
+        let d := encBE nb i
+        let outb : Bytes := match Producer.getBytes d o l (sh == "1") with
+          | .ok b => UInt8.ofNat b.length :: b
+          | .error _ => [255, 255]
+        outb.foldl (fun h x => ((h ^^^ x.toNat) * 1099511628211) % 2 ^ 64) h) 14695981039346656037
+      (st, ["res ok", "digest " ++ toString h])
+    | _, _ => (st, ["bad-op"])
   | ["nf", sid, hex] =>
     match parseHex hex with
     | none => (st, ["bad-op"])
@@ -110,6 +132,13 @@ def execOp (st : DState) (line : String) : DState × Option (List String) :=
       | .error _ =>
         let cfgs := st.cfgs.map fun (k, c) => (k, { c with fmt := { c.fmt with isSlice := isSlice' } })
         ({ st with cfgs := cfgs, isSlice := isSlice' }, some ["twin " ++ Format.renderTwin raw, "res err"])
+  | "keypair" :: cid :: toks =>
+    let a := toks.takeWhile (· ≠ "|")
+    let b := (toks.dropWhile (· ≠ "|")).drop 1
+    match Format.parseMsg a, Format.parseMsg b with
+    | some m1, some m2 =>
+      (st, some ["res ok", "key " ++ hexOf (Format.key (st.fmt cid) m1), "key " ++ hexOf (Format.key (st.fmt cid) m2)])
+    | _, _ => (st, some ["bad-op"])
   | "fmt" :: cid :: toks =>
     match Format.parseMsg toks with
     | none => (st, some ["bad-op"])
@@ -241,6 +270,7 @@ def genOps (prop : String) (seed n : Nat) : List String :=
   | "C06" => Gen.run seed (Gen.C06.gen n)
   | "C10" => Gen.run seed (Gen.C10.gen n)
   | "C13" => Gen.run seed (Gen.C13.gen n)
+  | "C14" => Gen.run seed (Gen.C14.gen n)
   | _ => []
 
 def main (args : List String) : IO UInt32 := do
